@@ -6,6 +6,7 @@ import Kaira.VerbsFec
 import Kaira.VerbsChan
 import Kaira.VerbsPolar
 import Kaira.VerbsSoft
+import Kaira.VerbsLink
 open Kaira
 
 structure DState where
@@ -46,6 +47,7 @@ def dispatch (st : DState) (line : String) : DState × String :=
         fun _ => Verbs.cconstraint toks,
         fun _ => Verbs.cpolar st.rank toks,
         fun _ => Verbs.csoft toks,
+        fun _ => Verbs.clink st.codes st.tables toks,
         fun _ => natVerb verb args,
         fun _ => Verbs.c16 toks,
         fun _ => Verbs.c17 toks,
